@@ -454,10 +454,10 @@ pub fn random_settings(rng: &mut StdRng, sym: bool) -> serde_json::Value {
         for (name, vals) in [
             ("tol_gap_abs", vec![1e-5, 1e-7, 1e-9, 1e-30]), ("tol_gap_rel", vec![1e-5, 1e-7, 1e-9, 1e-30]),
             ("tol_feas", vec![1e-5, 1e-7, 1e-9, 1e-30]), ("tol_infeas_abs", vec![1e-6, 1e-9]),
-            ("tol_infeas_rel", vec![1e-6, 1e-9]), ("tol_ktratio", vec![1e-5, 1e-7]),
+            ("tol_infeas_rel", vec![1e-6, 1e-9]), ("tol_ktratio", vec![1e-5, 1e-7, 1e-3, 1.0, 1e3]),
             ("reduced_tol_gap_abs", vec![1e-2, 1e-3, 5e-5, 1e-10]), ("reduced_tol_gap_rel", vec![1e-2, 5e-5, 1e-6, 1e-10]),
             ("reduced_tol_feas", vec![1e-2, 1e-4, 1e-6]), ("reduced_tol_infeas_abs", vec![5e-12, 1e-8]),
-            ("reduced_tol_infeas_rel", vec![5e-5, 1e-3]), ("reduced_tol_ktratio", vec![1e-4, 1e-3]),
+            ("reduced_tol_infeas_rel", vec![5e-5, 1e-3]), ("reduced_tol_ktratio", vec![1e-4, 1e-3, 1.0]),
         ] {
             if rng.gen::<f64>() < 0.4 {
                 s.insert(name.into(), json!(pick(rng, &vals)));
